@@ -107,6 +107,9 @@ pub struct Cfg {
     pub only: Option<fn(&Op) -> bool>,
     /// println of an empty string / of three lines in the alphabet
     pub odd_logs: bool,
+    /// the terminal is too short for all bars: a live bar may be missing from the screen (general
+    /// oracle otherwise: every row is a printed line or a member's rendering, order, no duplicates)
+    pub may_omit: bool,
 }
 
 impl Cfg {
@@ -136,6 +139,7 @@ impl Cfg {
             same_log_text: false,
             only: None,
             odd_logs: false,
+            may_omit: false,
         }
     }
 
@@ -823,7 +827,7 @@ impl Cfg {
                 expected_live.push(x);
             }
         }
-        let required: Vec<u8> = expected_live.clone();
+        let required: Vec<u8> = if self.may_omit { vec![] } else { expected_live.clone() };
         for &x in &required {
             if count(x) != 1 {
                 let b = &rf.bars[x as usize];
@@ -839,7 +843,8 @@ impl Cfg {
             if c > 1 {
                 return Err(("bars: a finished, dropped bar appears more than once".into(), format!("bar {} appears {c} times", b.name)));
             }
-            let must = !b.may_vanish && !rf.cleared && !bar_rows[x].is_empty() && !b.removed;
+            // (on a terminal too short for all bars the final frame may never have fitted)
+            let must = !b.may_vanish && !rf.cleared && !bar_rows[x].is_empty() && !b.removed && !self.may_omit;
             if must && c != 1 {
                 let class = if rf.bottom_ever {
                     "final-state: a visibly finished bar lost its final rendering without println/clear/suspend/remove (bottom alignment in effect)"
